@@ -40,6 +40,15 @@ from harness.core import Component, Ctx, REPO, run_component, run_driver
 STRICT_LIMIT_INDEPENDENCE = False
 STRICT_KEY = "C16:stager-limit-dependence"
 
+#: Aliasing that exists on the pinned tree but that no caller in the repo exercises: `logmux.write_or_buffer`
+#: (an unreferenced helper) buffers the caller's own dict, `append_jsonl` under a mux buffers a SHALLOW copy, and
+#: `LogStager.stage` keeps the caller's dict when nothing is normalised.  False (default): writers reuse one dict
+#: object by re-assigning its top-level fields (what `dict(record)` protects against) on the `append_jsonl` paths;
+#: True: also reuse under `write_or_buffer` and in-place mutation of nested containers (then the pinned tree
+#: violates "lossless" on the buffered path; key below, see proposed_findings/C16.json).
+DEEP_ALIASING_IN_SCOPE = False
+ALIAS_KEY = "C16:buffered-record-aliases-caller"
+
 RULE = ("seeded structured generators per component (records over volatile/non-volatile field pools with typed edge values; "
         "writer schedules; staging limits around 0/one/few records with key-monotone and non-monotone arrivals; generation sets "
         "with gaps and every crash point); a case is non-trivial when it hits at least one branch tag other than 'default' "
@@ -645,8 +654,14 @@ class AppendComp(FrozenComp):
             rest = [w for w, q in enumerate(qs) for _ in q]
             rng.shuffle(rest)
             sched += rest
-        return {"ci_env": rng.choice(CI_VALUES), "name": name, "qs": qs, "sched": sched,
-                "via": rng.choice(["direct", "direct", "mux_append", "mux_write_or_buffer"])}
+        via = rng.choice(["direct", "direct", "mux_append", "mux_append", "mux_write_or_buffer"])
+        # writers that build every record in ONE dict object, re-assigning its fields between appends
+        reuse = rng.choice([None, "fields", "fields"])
+        if via == "mux_write_or_buffer" and not DEEP_ALIASING_IN_SCOPE:
+            reuse = None
+        if reuse and DEEP_ALIASING_IN_SCOPE and rng.random() < 0.4:
+            reuse = "nested_inplace"
+        return {"ci_env": rng.choice(CI_VALUES + ["", "", ""]), "name": name, "qs": qs, "sched": sched, "via": via, "reuse": reuse}
 
     def impl_(self, case: dict) -> Any:
         from clematis.io.log import append_jsonl
@@ -655,6 +670,38 @@ class AppendComp(FrozenComp):
         pend = [list(q) for q in case["qs"]]
         trace = []
         via = case.get("via", "direct")
+        reuse = case.get("reuse")
+        objs: Dict[int, dict] = {}
+
+        def emit(w: int, rec: dict) -> dict:
+            """what the writer hands to the logger: a fresh dict, or its ONE long-lived dict refilled with
+            this record's fields (the model and the monitors take the VALUE at append time = `rec`)."""
+            if not reuse:
+                return rec
+            o = objs.setdefault(w, {})
+            if reuse == "nested_inplace":
+                box = o.get("box")
+                o.clear()
+                o.update(rec)
+                if isinstance(box, list):
+                    del box[:]
+                    box.append(len(rec))
+                    o["box"] = box  # same list object, mutated in place
+                else:
+                    o["box"] = [len(rec)]
+                rec["box"] = [len(rec)]
+                return o
+            o.clear()
+            o.update(rec)
+            return o
+
+        def writers_move_on() -> None:
+            for o in objs.values():
+                if isinstance(o.get("box"), list):
+                    del o["box"][:]
+                o.clear()
+                o["__reused_after_append__"] = True
+
         rec_raw = record_raw_writes()
         try:
             with with_ci(case["ci_env"]), with_logdir(d), rec_raw:
@@ -662,8 +709,9 @@ class AppendComp(FrozenComp):
                     for w in case["sched"]:
                         if w < len(pend) and pend[w]:
                             rec = pend[w].pop(0)
-                            append_jsonl(case["name"], rec)
+                            append_jsonl(case["name"], emit(w, rec))
                             trace.append([w, rec])
+                    writers_move_on()
                 else:
                     # PR70 capture: stages emit as usual, the driver flushes the captured pairs in order
                     mux = logmux.LogMux()
@@ -672,10 +720,11 @@ class AppendComp(FrozenComp):
                             if w < len(pend) and pend[w]:
                                 rec = pend[w].pop(0)
                                 if via == "mux_append":
-                                    append_jsonl(case["name"], rec)
+                                    append_jsonl(case["name"], emit(w, rec))
                                 else:
-                                    logmux.write_or_buffer(case["name"], rec)
+                                    logmux.write_or_buffer(case["name"], emit(w, rec))
                                 trace.append([w, rec])
+                        writers_move_on()  # … before the captured pairs are flushed
                         captured_nothing_written = not (d / case["name"]).exists()
                     logmux.flush(mux.dump())
                     if not captured_nothing_written:
@@ -689,6 +738,8 @@ class AppendComp(FrozenComp):
         return {"file": data.decode("utf-8"), "trace": trace, "others": others, "raw": raw}
 
     def _lines(self, case) -> List[List[str]]:
+        if case.get("reuse") == "nested_inplace":
+            case = dict(case, qs=[[dict(r, box=[len(r)]) for r in q] for q in case["qs"]])
         flat = [r for q in case["qs"] for r in q]
         ns = model_normalize_many(case["ci_env"], case["name"], flat)
         out, k = [], 0
@@ -701,6 +752,9 @@ class AppendComp(FrozenComp):
         return {"c": "c16.interleave", "qs": self._lines(case), "sched": case["sched"]}
 
     def compare_(self, case, impl_out, model_out):
+        if DEEP_ALIASING_IN_SCOPE and case.get("reuse") and (
+                case["reuse"] == "nested_inplace" or case.get("via") == "mux_write_or_buffer"):
+            return None  # the keyed monitors decide these cases (ALIAS_KEY); the model takes the value at append time
         if not isinstance(model_out, dict) or "file" not in model_out:
             return f"model error {model_out}"
         if "__raised__" in impl_out:
@@ -765,6 +819,10 @@ class AppendComp(FrozenComp):
             t.add("big_line")
         if case.get("via", "direct") != "direct" and n:
             t.add(case["via"])
+        if case.get("reuse") and n >= 2:
+            t.add("dict_reused_" + case.get("via", "direct"))
+            t.add("dict_reused_ci_" + ("on" if case["ci_env"].lower() == "true" else "off"))
+            t.add("dict_reused_" + ("identity_stream" if case["name"] in IDENT else "other_stream"))
         sizes = [sum(len(c) for c in g) for g in impl_out.get("raw", [])]
         if any(z > 8192 for z in sizes):
             t.add("frame_above_buffer")
@@ -1113,13 +1171,16 @@ class StagerComp(FrozenComp):
 
 # monitor_fail key override for the strict reading
 def _strict_wrap(ctx: Ctx) -> None:
-    if not STRICT_LIMIT_INDEPENDENCE:
+    if not (STRICT_LIMIT_INDEPENDENCE or DEEP_ALIASING_IN_SCOPE):
         return
     orig = ctx.monitor_fail
 
     def mf(comp, monitor, case, detail, impl_out=None, key=None):
         if monitor == STRICT_KEY:
             key = STRICT_KEY
+        if comp == "append" and isinstance(case, dict) and case.get("reuse") and (
+                case.get("reuse") == "nested_inplace" or case.get("via") == "mux_write_or_buffer"):
+            key = ALIAS_KEY
         return orig(comp, monitor, case, detail, impl_out, key)
     ctx.monitor_fail = mf  # type: ignore
 
@@ -1129,8 +1190,9 @@ def _strict_wrap(ctx: Ctx) -> None:
 # ---------------------------------------------------------------------------
 
 class BatchComp(FrozenComp):
-    """Drives the real `_run_agents_parallel_batch` (its staging loop, `_sort_turn_buffers`, the apply.jsonl
-    staging and the final drain) with compute/apply replaced through the orchestrator's own override hooks;
+    """Drives the real `_run_agents_parallel_batch` (the real `_run_turn_compute` with its LogMux capture, the staging
+    loop, `_sort_turn_buffers`, the apply.jsonl staging and the final drain); only `Orchestrator.run_turn` (a stub
+    emitting through the real `append_jsonl`) and `apply_changes` are replaced, via the orchestrator's own hooks;
     the writer is the real `_append_jsonl_unbuffered` on a scratch log dir."""
     name = "batch"
     budget = {"quick": 300, "thorough": 3000, "search": 1000}
@@ -1147,7 +1209,7 @@ class BatchComp(FrozenComp):
             if logs and rng.random() < 0.25:
                 k = rng.randrange(len(logs))
                 logs[k] = [logs[k][0], add_pad(rng, logs[k][1])]
-            bufs.append({"agent": f"ag{a}", "logs": logs})
+            bufs.append({"agent": f"ag{a}", "logs": logs, "reuse": rng.random() < 0.5})
         ests = [est_of(r) for b in bufs for _, r in b["logs"]] or [10]
         limit = rng.choice([max(ests) + 200, 2 * max(ests) + 200, sum(ests) + 1000, 32 * 1024 * 1024])
         return {"ci_env": rng.choice(["true", "true", "", "TRUE"]), "limit": limit, "turn": turn, "slice": sl, "bufs": bufs}
@@ -1171,14 +1233,30 @@ class BatchComp(FrozenComp):
         from types import SimpleNamespace as SNS
         d = scratch_dir("batch")
         bufs = {b["agent"]: b for b in case["bufs"]}
-        saved = {k: getattr(orch, k, None) for k in ("_run_turn_compute", "apply_changes", "enable_staging")}
+        from clematis.engine.orchestrator import core as ocore
+        from clematis.io.log import append_jsonl
+        saved = {k: getattr(orch, k, None) for k in ("apply_changes", "enable_staging")}
         had = {k: hasattr(orch, k) for k in saved}
+        real_orchestrator = ocore.Orchestrator
 
-        def compute(ctx, base, aid, text):
-            b = bufs[aid]
-            return {"turn_id": ctx.turn_id, "slice_idx": int(getattr(ctx, "slice_idx", 0) or 0), "agent_id": aid,
-                    "logs": [(p, dict(r)) for p, r in b["logs"]], "deltas": [], "dialogue": "", "graphs_touched": set(),
-                    "graph_versions": {}, "t2_info": {}, "plan_reflection": False}
+        class StageEmitter:
+            """Stands in for `Orchestrator` inside the REAL `_run_turn_compute`: its `run_turn` emits the
+            agent's records through the real `append_jsonl` while the driver's LogMux capture is active — from
+            fresh dicts, or (reuse) from ONE dict object refilled between appends and reused afterwards."""
+
+            def run_turn(self_, subctx, ro, text):
+                b = bufs[subctx.agent_id]
+                obj: Dict[str, Any] = {}
+                for p, r in b["logs"]:
+                    if b.get("reuse"):
+                        obj.clear()
+                        obj.update(r)
+                        append_jsonl(p, obj)
+                    else:
+                        append_jsonl(p, dict(r))
+                obj.clear()
+                obj["__reused_after_append__"] = True
+                return None
 
         def apply_changes(ctx, state, t4):
             return SNS(applied=0, clamps=0, version_etag="e", snapshot_path=None, metrics={})
@@ -1187,7 +1265,7 @@ class BatchComp(FrozenComp):
                   cfg={"perf": {"parallel": {"enabled": True, "agents": True, "max_workers": 8}}})
         state = {"agents": {b["agent"]: {"graphs": [b["agent"]]} for b in case["bufs"]}}
         try:
-            orch._run_turn_compute = compute
+            ocore.Orchestrator = StageEmitter
             orch.apply_changes = apply_changes
             orch.enable_staging = lambda: IOL.enable_staging(case["limit"])
             rec_raw = record_raw_writes()
@@ -1195,6 +1273,7 @@ class BatchComp(FrozenComp):
                 par._run_agents_parallel_batch(ctx, state, [(b["agent"], "hi") for b in case["bufs"]])
             files = {p.name: p.read_text(encoding="utf-8") for p in sorted(d.iterdir())}
         finally:
+            ocore.Orchestrator = real_orchestrator
             for k, v in saved.items():
                 if had[k]:
                     setattr(orch, k, v)
@@ -1279,6 +1358,9 @@ class BatchComp(FrozenComp):
             t.add("multi_agent")
         if any(sum(len(c) for c in g) > 8192 for _, g in impl_out.get("raw", [])):
             t.add("frame_above_buffer")
+        if any(b.get("reuse") and len(b["logs"]) >= 2 for b in case["bufs"]):
+            t.add("dict_reused_under_staging")
+            t.add("dict_reused_ci_" + ("on" if case["ci_env"].lower() == "true" else "off"))
         return sorted(t) or ["default"]
 
     def shrink_(self, case):
@@ -1582,6 +1664,37 @@ def fixed_obligations(ctx: Ctx) -> None:
         ctx.monitor_fail("stager", STRICT_KEY, freeze_case({"limit": 20, "arrivals": arr, "ci_env": "", "mode": "fixed"}),
                          f"per-file order depends on the staging limit: limit 100 -> turns {o_big}, limit 20 -> turns {o_small}",
                          small, key=STRICT_KEY)
+    # aliasing probe (evidence only unless DEEP_ALIASING_IN_SCOPE): which buffered paths keep a reference to the
+    # caller's dict / its nested containers on this tree
+    from clematis.io.log import append_jsonl as _aj
+    from clematis.engine.util import logmux as _lm
+    from clematis.engine.util import io_logging as _iol
+    probe: Dict[str, Any] = {}
+    with with_ci(""):
+        mux = _lm.LogMux()
+        with _lm.use_mux(mux):
+            o = {"step": 0, "box": [0]}
+            _aj("probe.jsonl", o)
+            o["step"] = 1
+            o["box"].append(1)
+            _lm.write_or_buffer("probe.jsonl", o)
+            o["step"] = 2
+        d0, d1 = mux.dump()[0][1], mux.dump()[1][1]
+        probe["append_jsonl_mux_top_level_copied"] = d0["step"] == 0
+        probe["append_jsonl_mux_nested_aliased"] = d0["box"] != [0]
+        probe["write_or_buffer_aliases_caller_dict"] = d1["step"] != 1
+        try:
+            st = _iol.enable_staging(10 ** 6)
+            o = {"step": 0}
+            st.stage("probe.jsonl", _iol.default_key_for(file_path="probe.jsonl", turn_id=0, slice_idx=0), o)
+            o["step"] = 1
+            probe["stage_aliases_caller_dict_when_not_normalised"] = st.drain_sorted()[0].payload["step"] != 0
+        finally:
+            _iol.disable_staging()
+    ctx.extra["c16_aliasing_probe"] = probe
+    if not probe["append_jsonl_mux_top_level_copied"]:
+        ctx.monitor_fail("append", "mux_buffers_value_at_append_time", {"fixed": "aliasing_probe"},
+                         f"append_jsonl under a LogMux buffered the caller's own dict: {probe}", None)
     # json.dumps emits no raw LF/CR
     import json as _json
     bad = [s for s in TEXTS + ["\n", "\r", "\r\n", "\x0b\x0c\x1c\x1d\x1e\x85"] if any(c in _json.dumps({"k": s}, ensure_ascii=False) for c in "\n\r")]
